@@ -93,6 +93,24 @@ def _sub_calls(prog):
                 out.append(("call", "re.sub", args, {"flags": flags} if flags is not None else {}, e[4]))
         if out:
             break
+    if not out:
+        # the variable store is not the mapping the session model fills in: define the variable through SET instead
+        from ..execmodel import ExecHooks, lit, node
+        from ..values import ClsRef, Lst, NodeV
+
+        def run(I):
+            v = I.construct(ClsRef("fakesnow.variables.Variables"), [], {}, None)
+            col = NodeV("Column", {"this": NodeV("Identifier", {"this": Const("VARNAME"), "quoted": Const(False)}, name="id:VARNAME", open=False)},
+                        name="col:VARNAME", open=False)
+            st = node("Set", "stmt", unset=Const(False), tag=Const(False),
+                      expressions=Lst([node("SetItem", this=node("EQ", this=col, expression=lit("1", False)))]))
+            I.call(I.getattr(v, "update_variables"), [st], {}, None)
+            return I.call(I.getattr(v, "inline_variables"), [Sym("SQL", typ="str", truthy=True)], {}, None)
+
+        for p in explore(prog, lambda: ExecHooks(None), run, max_paths=16):
+            out = [e for e in p.effects if e[0] == "call" and e[1] in ("re.sub", "re.subn")]
+            if out:
+                break
     return out
 
 
@@ -365,7 +383,85 @@ def rule_script_not_presubstituted(ctx):
     ctx.findings[before:] = keep
 
 
+class _SubHooks(Hooks):
+    """records, for every regex substitution, what its replacement inserts (the replacement callable applied to a match)"""
+
+    def __init__(self):
+        self.inserted = []
+
+    def external(self, I, d, args, kwargs, site):
+        if d in ("re.sub", "re.subn") and len(args) >= 2:
+            repl = args[1]
+            v = I.call(repl, [Obj("m", kind="match")], {}, site) if isinstance(repl, (Lam, Func)) else repl
+            self.inserted.append(v)
+        return NotImplemented
+
+
+def rule_histories(ctx):
+    """C15.k: short SET / UNSET histories through the Variables object's own methods, whatever it stores internally:
+    after `SET x = a; SET x = b` a reference inserts b's text and never a's; after `SET x = a; UNSET x` nothing is inserted."""
+    from ..execmodel import lit, node
+    from ..values import ClsRef, Lst, NodeV
+
+    def ident(nm):  # a concrete name: SET reads it from the column's rendering, UNSET from the alias identifier
+        return NodeV("Identifier", {"this": Const(nm), "quoted": Const(False)}, name=f"id:{nm}", open=False)
+
+    prog = ctx.prog
+    loc = "fakesnow/variables.py"
+
+    def set_stmt(col, val):
+        return node("Set", "stmt", unset=Const(False), tag=Const(False),
+                    expressions=Lst([node("SetItem", this=node("EQ", this=col, expression=val))]))
+
+    def unset_stmt():
+        return node("Alias", "stmt", this=node("Column", this=NodeV("Identifier", {"this": Const("UNSET"), "quoted": Const(False)},
+                                                                    name="id:UNSET", open=False)), alias=ident("X"))
+
+    n = 0
+    for history in (("set a", "set b"), ("set a", "unset"), ("set a", "unset", "set b")):
+        hooks, lits = [], []
+
+        def fac():
+            h = _SubHooks()
+            hooks.append(h)
+            return h
+
+        def run(I, history=history):
+            v = I.construct(ClsRef("fakesnow.variables.Variables"), [], {}, None)
+            col = NodeV("Column", {"this": ident("X")}, name="col:X", open=False)
+            vals = {"a": lit("1", False), "b": lit("2", False)}
+            lits.append(vals)
+            for step in history:
+                st = unset_stmt() if step == "unset" else set_stmt(col, vals[step[-1]])
+                I.call(I.getattr(v, "update_variables"), [st], {}, None)
+            return I.call(I.getattr(v, "inline_variables"), [Sym("SQL", typ="str", truthy=True)], {}, None)
+
+        for p, h, vals in zip(explore(prog, fac, run, max_paths=32), hooks, lits):
+            if p.outcome != "return":
+                continue  # the residual-reference refusal: C15.d
+            n += 1
+
+            def of(v):  # which SET's value an inserted text renders
+                o = getattr(v, "origin", None)
+                for k, l_ in vals.items():
+                    if o and o[0] == "sql" and o[1] is l_:
+                        return k
+                return None
+
+            got = [of(v) for v in h.inserted]
+            final = {"set a": "a", "set b": "b", "unset": None}[history[-1]]
+            want = [final] if final else []
+            ok = got == want
+            ctx.ob("C15.k", f"after {'; '.join(history)} a reference to x inserts {final or 'nothing'}", ok, loc, str(got))
+            if not ok:
+                ctx.violation("C15.k", "variables", "Variables.inline_variables", f"after {'; '.join(history)}: inserts {got}", loc,
+                              f"after the history `{'; '.join(history)}` the substitution of `$x` inserts the value(s) of {got} (in that order) "
+                              f"instead of {want}: a later SET must replace the earlier value and UNSET must forget it")
+    ctx.floor("C15.k histories", n, 3)
+
+
 RULES = [
+    ("C15.k", rule_histories, ("quick", "thorough")),
     ("C15.j", rule_script_not_presubstituted, ("quick", "thorough")),
     ("C15.a", rule_store, ("quick", "thorough")),
     ("C15.b", rule_pattern, ("quick", "thorough")),
